@@ -83,22 +83,31 @@ inductive Geom where
   | ok (h : Hunk) (how : How)
   deriving DecidableEq, Repr
 
-/-- one iteration of the `for m in matches` loop of `generate_hunks`, geometry only -/
-def hunkGeom (content : Bytes) (line col start stop : Nat) (text repl : Bytes) : Geom :=
+/-- one iteration of the `for m in matches` loop of `generate_hunks`, geometry only.
+    `colIsByte`: is the position at which the match is spliced into the line the match's byte column (the code as it
+    is; extracted from scanner.rs into `Gen.lineAfterColumnIsByte` on every run) or its character offset (a byte/char
+    mix-up: the slice then misses whenever a multi-byte character precedes the match, and the `find` fallback takes over)? -/
+def hunkGeomG (colIsByte : Bool) (content : Bytes) (line col start stop : Nat) (text repl : Bytes) : Geom :=
   match lineOf content line with
   | none => .skip
   | some l =>
     let ls := Utf8.lossy l
-    match lineAfter ls col text repl with
+    let at_ := if colIsByte then col else charOffset ls col
+    match lineAfter ls at_ text repl with
     | none => .panic
     | some (la, how) =>
       .ok { line := line, byteOffset := col, charOffset := charOffset ls col, start := start, stop := stop,
             content := text, replace := repl, lineBefore := ls, lineAfter := la } how
 
+/-- the planner that splices at the byte column -/
+abbrev hunkGeom := hunkGeomG true
+
 /-- geometry from the span alone, line and column computed as `find_matches` /
     `find_enhanced_matches` compute them -/
-def hunkGeomAt (content : Bytes) (start stop : Nat) (text repl : Bytes) : Geom :=
-  hunkGeom content (Matcher.lineNo content start) (start - Matcher.lineStart content start) start stop text repl
+def hunkGeomAtG (colIsByte : Bool) (content : Bytes) (start stop : Nat) (text repl : Bytes) : Geom :=
+  hunkGeomG colIsByte content (Matcher.lineNo content start) (start - Matcher.lineStart content start) start stop text repl
+
+abbrev hunkGeomAt := hunkGeomAtG true
 
 -- diff preview ---------------------------------------------------------------------------------
 
